@@ -50,12 +50,16 @@ def gen_keys(rng):
     keys = set()
     if style < 0.40:
         # prefix-closed set over a small alphabet: grow a random tree
+        # (bounded number of attempts: with a one-letter alphabet only 6 keys of length <= 6 exist,
+        # so `target` may be unreachable; a key enters the frontier once)
         frontier = [b""]
         target = rng.randrange(3, 30)
-        while len(keys) < target and frontier:
+        for _ in range(40 * target):
+            if len(keys) >= target:
+                break
             p = rng.choice(frontier)
             k = p + rng.choice(al)
-            if len(k) <= 6:
+            if len(k) <= 6 and k not in keys:
                 keys.add(k)
                 frontier.append(k)
     elif style < 0.55:
@@ -89,6 +93,8 @@ def gen_keys(rng):
         for _ in range(rng.randrange(0, 6)):
             keys.add(bytes(rng.randrange(1, 256) for _ in range(rng.randrange(1, 5))))
     keys.discard(b"")
+    if not keys:
+        keys.add(rng.choice(al))
     keys = sorted(keys)
     near = set()
     for k in keys:
